@@ -14,7 +14,7 @@ if ! go build -tags verif -o "$bin" ./cmd/vcheck 2>.bin/build.$$.log; then
   echo "INCONCLUSIVE: property=$prop build failed"; exit 2
 fi
 rm -f .bin/build.$$.log
-if [ "$prop" = "C19" ]; then
+if [ "$prop" = "C19" ] || [ "$prop" = "C14" ]; then
   if ! go build -race -tags verif -o "$bin.race" ./cmd/vcheck 2>.bin/build.$$.log; then
     cat .bin/build.$$.log; rm -f .bin/build.$$.log
     echo "INCONCLUSIVE: property=$prop race build failed"; exit 2
